@@ -206,8 +206,22 @@ func c14Alphabet(r *gen.Rand, v *spec.Version) []string {
 			add(src[:len(src)-len(last)] + k)
 		}
 	}
+	// MANY parts: more '/'-separated parts than any fixed-size scratch buffer of the parsers has slots (17, 33, 65, 257)
+	{
+		src := v.Canonical(full)
+		_, el := gen.SplitElems(v, src)
+		for _, n := range []int{17, 33, 65, 257} {
+			var sb strings.Builder
+			sb.WriteString(src)
+			for k := len(el); k < n; k++ {
+				sb.WriteByte('/')
+				sb.WriteString(el[k%len(el)])
+			}
+			add(sb.String())
+		}
+	}
 	base := v.Canonical(full)
-	for i := 0; len(out) < 60 && i < 400; i++ {
+	for i := 0; len(out) < 64 && i < 400; i++ {
 		m, _ := gen.Mutate(r, v, base)
 		add(m)
 	}
@@ -1139,6 +1153,16 @@ func mkHammerOps(r *gen.Rand, shared [][]probe.Obj) []hammerOp {
 			po, err, p := api.SafeParse(badSrc)
 			if p != nil || err == nil || po != nil || api.Classify(err) != badWant {
 				return false, badWant.String(), fmt.Sprint(po, err, p), badSrc
+			}
+			return true, "", "", ""
+		}})
+		manySrc := srcs[0] + strings.Repeat("/"+api.Ver.Metrics[0].Abv+":"+api.Ver.Metrics[0].Values[0], 40)
+		_, manyErr, _ := api.SafeParse(manySrc)
+		manyWant := api.Classify(manyErr)
+		out = append(out, hammerOp{"ParseVector(rejected, 40 extra parts)", vi, 1, func(i int) (bool, string, string, string) {
+			po, err, p := api.SafeParse(manySrc)
+			if p != nil || err == nil || po != nil || api.Classify(err) != manyWant {
+				return false, manyWant.String(), fmt.Sprint(po, err, p), manySrc
 			}
 			return true, "", "", ""
 		}})
